@@ -78,3 +78,40 @@ pub fn h_c32_names_survive_edits() {
     }
     reach("C32.names");
 }
+
+/// sheet-local names: a name local to the sheet Other (created first), then the two global names; deleting Other must
+/// not disturb the global names, and renaming Rate while moving it to the scope of Sheet1 rewrites the Sheet1 formula
+pub fn h_c32_local_name_and_rescope() {
+    let mut s1 = empty_sheet("Sheet1", 1);
+    let mut row: HashMap<i32, Cell> = HashMap::new();
+    row.insert(1, Cell::NumberCell { v: 1.5, s: 0 });
+    s1.sheet_data.insert(1, row);
+    let mut s2 = empty_sheet("Data", 2);
+    let mut row2: HashMap<i32, Cell> = HashMap::new();
+    row2.insert(2, Cell::NumberCell { v: 4.0, s: 0 });
+    s2.sheet_data.insert(3, row2);
+    let mut model = model_from_workbook(workbook_with_cells(vec![s1, s2, empty_sheet("Other", 3)]));
+    let typed = model.new_defined_name("Loc", Some(2), "Other!$A$1").is_ok() && model.new_defined_name("Rate", None, "Sheet1!$A$1").is_ok()
+        && model.new_defined_name("Base", None, "Data!$B$3").is_ok() && model.set_user_input(0, 2, 1, "=Rate*2+Base".to_string()).is_ok()
+        && model.set_user_input(1, 1, 1, "=SUM(Rate,Base)".to_string()).is_ok();
+    check("C32.local.entered", typed);
+    if !typed { return; }
+    model.evaluate();
+    check("C32.local.values_before", (model.get_cell_value_by_index(0, 2, 1) == Ok(CellValue::Number(7.0))) & (model.get_cell_value_by_index(1, 1, 1) == Ok(CellValue::Number(5.5))));
+    let delete_other = any_bool();
+    if delete_other {
+        let deleted = model.delete_sheet(2).is_ok();
+        check("C32.local.delete_accepted", deleted);
+        if !deleted { return; }
+        model.evaluate();
+        check("C32.local.global_names_survive_the_deletion", (model.get_cell_value_by_index(0, 2, 1) == Ok(CellValue::Number(7.0))) & (model.get_cell_value_by_index(1, 1, 1) == Ok(CellValue::Number(5.5))));
+    } else {
+        let renamed = model.update_defined_name("Rate", None, "Tax", Some(0), "Sheet1!$A$1").is_ok();
+        check("C32.local.rename_and_rescope_accepted", renamed);
+        if !renamed { return; }
+        model.evaluate();
+        let f = model.get_cell_formula(0, 2, 1).unwrap_or(None).unwrap_or_default();
+        check("C32.local.formula_in_scope_uses_the_new_name", (f == "=Tax*2+Base") & (model.get_cell_value_by_index(0, 2, 1) == Ok(CellValue::Number(7.0))));
+    }
+    reach("C32.local");
+}
